@@ -20,8 +20,9 @@ def run(check):
     T = 'double'
     check.checker_cmd = 'clang++ -ast-dump=json | phqv tables/lower | goto-cc | goto-instrument --dfcc --enforce-contract {ConvertInPlace,Convert}<U,...> | cbmc (MiniSat) ; phqv symex (REAL) -> z3 for round trips and compile-time forms'
     check.assume('per-unit leaf conversions are uninterpreted functions here (tied to the real bodies by C01\'s leaf obligations); every entry point is proved to apply exactly To_original then From_new to each component, for every pair of enumerators in the declared range')
+    check.assume('ConvertStatically<U, A, B> is one generic template per shape (no specialisation per unit): it is instantiated and proved equal to the run-time form for three ordered pairs of distinct enumerators per unit type, which exercises both of its steps with different units')
     check.assume('callee contracts of the 2 x (number of units) loop routines are emitted as generated stubs for the fixed size reached by the entry point (1, 2, 3, 6, 9); the loop routines themselves are proved against those contracts for one representative per direction after checking that all of them are the same IR up to the leaf they call')
-    check.notes.append('std::vector copying form Convert(const std::vector&) is outside the translated subset (vector copy construction); the in-place std::vector form is proved for all sizes through the loop contract of the array routine (ghost element index), the bounded run (size <= 8) is kept as a cross-check and labelled bounded')
+    check.notes.append('std::vector forms (in place and copying) are proved for all sizes: arbitrary ghost element index, array routine replaced by its loop-contract-proved contract, std::vector copy construction by its library contract (fresh storage, same size, equal elements); the bounded run of the array routine (size <= 8) is kept as a cross-check and labelled bounded')
     check.notes.append('"to within one ulp / up to rounding" for the round trip is C01\'s leaf bound applied to the pair (u, u); here the round trip is exact over the reals')
     units = Units(check, types=[T], shapes=True)
     low, Tb = units.low, units.tables
@@ -75,6 +76,9 @@ def run(check):
             f = find_vector_entry(units, ut, T)
             vjobs.append((ut, f, 'C02.inplace.std_vector.%s' % utn))
             check.under_contract(f)
+            f = find_vector_entry(units, ut, T, 'Convert')
+            vjobs.append((ut, f, 'C02.copy.std_vector.%s' % utn))
+            check.under_contract(f)
         except Unsupported as e:
             check.error('C02: %s' % e)
     check.log('%d entry-point obligations' % len(jobs))
@@ -105,7 +109,9 @@ def run(check):
             t = RealTask(check, 'C02.roundtrip.%s.%s' % (utn, uname), S, cmp('==', st.mem[b], x), function=lt.qualname, loc='include/PhQ/Unit/%s.hpp:%s' % (utn, lt.loc[1]))
             t.ob.text = 'FromStandard_u(ToStandard_u(x)) == x for all real x (u = %s::%s): constructing in unit u and reading back in unit u returns the original number' % (ut, uname)
             tasks.append(t)
-    tasks += static_tasks(check, units, T)
+    tasks += static_tasks(check, units, T, quick=(tier == 'quick'))
+    if check.extra.get('static_forms_seen', 0) < 200:
+        check.error('must-fire: expected >= 200 instantiated compile-time forms, found %s' % check.extra.get('static_forms_seen'))
     # ------------------------------------------------------------------ members of the quantity classes forward to the entry points
     from . import c02_members
     c02_members.run_all(check)
@@ -127,11 +133,11 @@ def run(check):
             check.violations.append((ob, write_replay(check, ob, rec), '' if rec['confirmed'] else 'no-failing-input-found'))
 
 
-def find_vector_entry(units, ut, T):
-    """The instantiated PhQ::ConvertInPlace<ut, T>(std::vector<T>&, ut, ut)."""
+def find_vector_entry(units, ut, T, fname='ConvertInPlace'):
+    """The instantiated PhQ::ConvertInPlace<ut, T>(std::vector<T>&, ut, ut) / PhQ::Convert<ut, T>(const std::vector<T>&, ut, ut)."""
     low, a = units.low, units.ast
     for o in a.walk():
-        if o.get('kind') == 'FunctionDecl' and o.get('name') == 'ConvertInPlace' and low.has_body(o) and \
+        if o.get('kind') == 'FunctionDecl' and o.get('name') == fname and low.has_body(o) and \
                 any(x.get('kind') == 'TemplateArgument' for x in o.get('inner', ())):
             ps = [x for x in o.get('inner', ()) if x.get('kind') == 'ParmVarDecl']
             if len(ps) != 3:
@@ -142,7 +148,7 @@ def find_vector_entry(units, ut, T):
                 continue
             if t1 == ('enum', ut) and t0 == ('ref', ('vec', ('f', T))):
                 return low.lower_func(o)
-    raise Unsupported('ConvertInPlace<%s, %s>(std::vector&) not instantiated' % (ut, T))
+    raise Unsupported('%s<%s, %s>(std::vector&) not instantiated' % (fname, ut, T))
 
 
 def vector_entry_job(check, units, ut, T, f, name):
@@ -164,24 +170,29 @@ def vector_entry_job(check, units, ut, T, f, name):
         VT = E.ctype(('vec', ('f', T)))
         spec += 'static unsigned long long phqv_bits(%s a) { union { %s d; unsigned long long u; } x; x.u = 0; x.d = a; return x.u; }\n' % (T, T)
         spec += '%s *phqv_d0; unsigned long phqv_n; unsigned long phqv_k;\n' % T
+        copying = f.ret != ('void',)
         stubs, stubbed = [], []
         for lf in list(loops_to.values()) + list(loops_from.values()):
             pv, ps = lf.params[0][0], lf.params[1][0]
-            stubs.append('%s\n{\n  __CPROVER_assert(%s == phqv_d0 && %s == phqv_n, "callee contract requires the whole buffer of the vector");\n'
+            stubs.append('%s\n{\n  __CPROVER_assert(__CPROVER_POINTER_OFFSET(%s) == 0 && __CPROVER_OBJECT_SIZE(%s) == %s * sizeof(%s) && %s == phqv_n, "callee contract requires the whole buffer of a vector of the original size");\n'
                          '  %s[phqv_k] = %s(%s[phqv_k]);\n}' % (
-                             E.proto(lf), pv, ps, pv, dispatch.uf_name(lf), pv))
+                             E.proto(lf), pv, pv, ps, T, ps, pv, dispatch.uf_name(lf), pv))
             stubbed.append(lf.cname)
-        harness = ('void harness(void) {\n  %s v; unsigned long n; unsigned long k; %s o; %s nn;\n'
-                   '  __CPROVER_assume(n >= 1 && n < 1000000000000UL && k < n);\n'
-                   '  __CPROVER_assume(o >= %d && o <= %d && nn >= %d && nn <= %d);\n'
-                   '  v.data = (%s *)__CPROVER_allocate(n * sizeof(%s), 0); v.size = n;\n'
-                   '  phqv_d0 = v.data; phqv_n = n; phqv_k = k;\n  %s oldk = v.data[k];\n'
-                   '  %s(&v, o, nn);\n'
-                   '  __CPROVER_assert(v.data == phqv_d0 && v.size == n, "data pointer and size unchanged");\n'
-                   '  __CPROVER_assert(phqv_bits(v.data[k]) == phqv_bits(%s(oldk, o, nn)), "element k == Conv(old element k, original, new)");\n}\n') % (
-                       VT, KT, KT, lo, hi, lo, hi, T, T, T, f.cname, conv)
+        pre = ('void harness(void) {\n  %s v; unsigned long n; unsigned long k; %s o; %s nn;\n'
+               '  __CPROVER_assume(n >= 1 && n < 1000000000000UL && k < n);\n'
+               '  __CPROVER_assume(o >= %d && o <= %d && nn >= %d && nn <= %d);\n'
+               '  v.data = (%s *)__CPROVER_allocate(n * sizeof(%s), 0); v.size = n;\n'
+               '  phqv_d0 = v.data; phqv_n = n; phqv_k = k;\n  %s oldk = v.data[k];\n') % (VT, KT, KT, lo, hi, lo, hi, T, T, T)
+        if not copying:
+            harness = pre + ('  %s(&v, o, nn);\n'
+                             '  __CPROVER_assert(v.data == phqv_d0 && v.size == n, "data pointer and size unchanged");\n'
+                             '  __CPROVER_assert(phqv_bits(v.data[k]) == phqv_bits(%s(oldk, o, nn)), "element k == Conv(old element k, original, new)");\n}\n') % (f.cname, conv)
+        else:
+            harness = pre + ('  %s r = %s(&v, o, nn);\n'
+                             '  __CPROVER_assert(v.data == phqv_d0 && v.size == n && phqv_bits(v.data[k]) == phqv_bits(oldk), "data pointer and size unchanged");\n'
+                             '  __CPROVER_assert(r.size == n && !__CPROVER_same_object(r.data, v.data) && phqv_bits(r.data[k]) == phqv_bits(%s(oldk, o, nn)), "element k == Conv(old element k, original, new)");\n}\n') % (VT, f.cname, conv)
         txt = E.unit([f], extra=spec, bodyless=stubbed) + '\n'.join(stubs) + '\n' + harness
-        ob.text = 'for every size n in [1, 10^12), every k < n, every pair of enumerators in [%d, %d]: after %s(v, o, nn): v[k] == Conv(old v[k], o, nn) bit for bit, v.data() and v.size() unchanged; callees replaced by the array-routine contract' % (lo, hi, f.qualname)
+        ob.text = 'for every size n in [1, 10^12), every k < n, every pair of enumerators in [%d, %d]: %s(v, o, nn): element k of the result (in place: of v) == Conv(old v[k], o, nn) bit for bit; in place: v.data() and v.size() unchanged; copying: the argument is unchanged and the result has its own storage of the same size; callees replaced by the array-routine contract and by the library contract of std::vector copy construction' % (lo, hi, f.qualname)
         r = cbmc.verify(txt, os.path.join(check.work, 'cbmc'), re.sub(r'\W+', '_', name), backend='sat', timeout=600, flags=['--bounds-check', '--pointer-check'], object_bits=None)
         ob.seconds, ob.backend = r.seconds, r.backend
         mine = [p for p in r.props if 'element k ==' in p[2] or 'data pointer and size' in p[2]]
@@ -223,7 +234,7 @@ def adjudicate_vector(check, units, j, ob, T):
     for (po, pn) in pairs[:7]:
         O, Nn = 'PhQ::Unit::%s::%s' % (utn, names[po]), 'PhQ::Unit::%s::%s' % (utn, names[pn])
         cpp = ('#include <PhQ/Unit/%s.hpp>\n#include <PhQ/Unit.hpp>\n#include <cstdio>\n#include <vector>\nint main() {\n'
-               '  const std::vector<%s> v0 = {1.5, -2.5, 3.5, 1000.25, -0.125};\n  std::vector<%s> v = v0;\n  PhQ::ConvertInPlace(v, %s, %s);\n  int bad = 0;\n'
+               '  const std::vector<%s> v0 = {1.5, -2.5, 3.5, 1000.25, -0.125};\n  std::vector<%s> v = v0;\n  ' + ('PhQ::ConvertInPlace(v, %s, %s);' if '.inplace.' in name else 'v = PhQ::Convert(v0, %s, %s);') + '\n  int bad = 0;\n'
                '  if (v.size() != v0.size()) { std::printf("MISMATCH size %%zu\\n", v.size()); return 1; }\n'
                '  for (std::size_t i = 0; i < v0.size(); ++i) { const %s want = PhQ::Convert(v0[i], %s, %s); if (!(v[i] == want)) { std::printf("MISMATCH element %%zu: %%.17g, scalar conversion gives %%.17g\\n", i, (double)v[i], (double)want); bad++; } }\n'
                '  return bad ? 1 : 0;\n}\n') % (utn, T, T, O, Nn, T, O, Nn)
@@ -358,7 +369,7 @@ def loop_obligations(check, units, T):
             check.violations.append((ob, write_replay(check, ob, rec), 'no-failing-input-found'))
 
 
-def static_tasks(check, units, T):
+def static_tasks(check, units, T, quick=False):
     """Compile-time forms: ConvertStatically<U, A, B>(x) equals the run-time Convert(x, A, B) as a real function, for
     the instantiations present in the TU (first / last non-standard unit against the standard unit)."""
     low, a = units.low, units.ast
@@ -388,6 +399,11 @@ def static_tasks(check, units, T):
                 vals.append(int(v))
             if len(f.params) != 1 or ut not in units.unit_types:
                 continue
+            if quick and ut.split('::')[1] not in QUICK_FULL:
+                p0 = f.params[0][1]
+                p0 = p0[1] if p0[0] == 'ptr' else p0
+                if not (p0[0] == 'f' or (p0[0] == 'rec' and low.record(p0[1]).template == 'Vector') or (p0[0] == 'sarr' and p0[2] == 3)):
+                    continue
             seen += 1
             names = {v: n for n, v in units.enumerators(ut)}
             pt = f.params[0][1]
